@@ -22,6 +22,8 @@ ASSUMPTIONS = ["the XML is produced by the library's own writer from generated o
 MODEL_IS_SPEC = True
 _cache = {}
 
+responses_agree = genutil.same_events
+
 
 def is_trivial(line, mo):
     return " P " not in mo
